@@ -18,8 +18,8 @@ MANIFEST = {
 
 INVARIANTS = ["C01_User", "C01_Group"]
 PROPERTIES = []
-QUICK = ["chain2", "nest", "grp2"]
-THOROUGH = ["chain2", "nest", "grp2", "upd2", "diamond", "retry", "jpim", "clean"]
+QUICK = ['chain2', 'nest_s', 'grp2', 'sib']
+THOROUGH = ['chain2', 'nest_s', 'grp2', 'sib', 'upd2', 'diamond', 'clean', 'jpim_s', 'retry_s', 'nest', 'jpim', 'retry']
 FINDINGS = [("toctou", "chain2", ["C01_User"]), ("ooc", "upd2", ["C01_User"])]
 
 
